@@ -11,9 +11,9 @@ CONSTANTS
  DevKeepBrokers = FALSE
  DevIdFilterAll = FALSE
  DevDropErrTopics = FALSE
- DevStaleIdCache = FALSE
+ DevStaleIdCache = TRUE
 INIT Init
 NEXT Next
-INVARIANTS C28_OnlyProxyBrokers C28_OnlyProxyLeaders C28_OnlyProxyCoordinator C28_TopologyKept EmitSched
+INVARIANTS C28_OnlyProxyBrokers C28_OnlyProxyLeaders C28_OnlyProxyCoordinator C28_TopologyKept 
 VIEW View
 CHECK_DEADLOCK FALSE
